@@ -18,9 +18,71 @@ import sched
 import c19
 
 KLASS = "F30-raising-builtin-skips-user-handler"
+KLASS_SIG = "F31-annotation-ask-lost-when-hints-fail"
 T_NONE, T_ABOVE, T_BELOW = 0, 1, 2
 PARAMS = c19.PARAMS            # 0 params | 1 ls | 2 srv: <server class> | 3 x: int | 4 ls: int
 INJECTS = (1, 2, 4)
+# the rest of the signature / the kind of callable (reg row: [kind, name, asy, par, thr, fid, rz, rest, ck])
+REST = ["*rest", "p2: int = NO, *rest", 'p2: "Undefined_" = NO, *rest', '*rest) -> "Undefined_"']
+CKIND = ["def", "functools.partial of a def", "instance with __call__", "lambda", "bound method"]
+K_DEF, K_PARTIAL, K_OBJ, K_LAMBDA, K_METHOD = range(5)
+
+
+def reg_fields(r):
+    r = list(r) + [0, 0][:max(0, 9 - len(r))]
+    return r[:9]
+
+
+def hints_ok(rest, ck):
+    """Does typing.get_type_hints(f) return?  Written down from CPython's typing module, NOT asked from
+    pygls: it evaluates EVERY annotation of a function (NameError for a reference to an undefined name,
+    in a parameter or the return annotation) and raises TypeError for objects that are not a module,
+    class, method or function and carry no __annotations__ (functools.partial, instances)."""
+    if ck in (K_PARTIAL, K_OBJ):
+        return False
+    if ck == K_LAMBDA:
+        return True
+    return rest in (0, 1)
+
+
+def first_tokens(par, ck):
+    """the first parameter as inspect.signature shows it (a lambda cannot carry annotations)"""
+    if par is None:
+        return "0"
+    t = PARAMS[par][0]
+    if ck == K_LAMBDA:
+        t = t.split()[0] + " " + t.split()[1] + " 0"
+    return t
+
+
+def build_callable(body, LS, asy, par, rest, ck):
+    """A real callable of the given signature whose body is `body(first, more)`."""
+    import functools
+    NO = object()
+    fa = None if par is None else PARAMS[par][1].replace("LanguageServer", "LS")
+    first = None if par is None else fa.split(":")[0]
+    ns = {"body": body, "LS": LS, "NO": NO, "functools": functools}
+    if ck == K_LAMBDA:
+        return eval("lambda %s*rest: body(%s, rest)" % ((first + ", ", first) if first else ("", "None")), ns)
+    ra = REST[rest]
+    ret = ""
+    if rest == 3:
+        ra, ret = "*rest", ' -> "Undefined_"'
+    more = "(() if p2 is NO else (p2,)) + rest" if rest in (1, 2) else "rest"
+    if first is None:
+        call = "body(None, %s)" % more
+    else:
+        call = "body(%s, %s)" % (first, more)
+    pre = ["self"] if ck in (K_OBJ, K_METHOD) else ["extra"] if ck == K_PARTIAL else []
+    params = ", ".join(pre + ([fa] if fa else []) + [ra])
+    kw = "async def" if asy else "def"
+    if ck in (K_OBJ, K_METHOD):
+        nm = "__call__" if ck == K_OBJ else "m"
+        exec("class C:\n    %s %s(%s)%s:\n        return %s\n" % (kw, nm, params, ret, call), ns)
+        o = ns["C"]()
+        return o if ck == K_OBJ else o.m
+    exec("%s h(%s)%s:\n    return %s\n" % (kw, params, ret, call), ns)
+    return functools.partial(ns["h"], 0) if ck == K_PARTIAL else ns["h"]
 BUILTIN = {"init": "initialize", "inited": "initialized", "open": "textDocument/didOpen",
            "change": "textDocument/didChange", "close": "textDocument/didClose",
            "folders": "workspace/didChangeWorkspaceFolders", "trace": "$/setTrace",
@@ -138,8 +200,9 @@ class Sched14(sched.Sched):
     # ---- registrations: the decorated definitions of the case, first exception ends a definition
     def _register(self, chained):
         srv = self.server
-        for kind, name, asy, par, thr, fid, rz in self.case["regs"]:
-            f = self._make(kind, name, asy, par, fid, rz)
+        for r in self.case["regs"]:
+            kind, name, asy, par, thr, fid, rz, rest, ck = reg_fields(r)
+            f = self._make(kind, name, asy, par, fid, rz, rest, ck)
             try:
                 if thr == T_BELOW:
                     f = srv.thread()(f)
@@ -149,43 +212,20 @@ class Sched14(sched.Sched):
             except Exception:       # noqa  (refused: duplicate name, thread on a coroutine)
                 pass
 
-    def _make(self, kind, name, asy, par, fid, rz):
+    def _make(self, kind, name, asy, par, fid, rz, rest=0, ck=0):
         S = self
-        LS = type(self.server)
         part = "user" if kind == 0 else "command"
 
-        def body(first, rest):
+        def body(first, more):
             inj = first is S.server
-            args = tuple(rest) if inj else (first,) + tuple(rest)
+            args = tuple(more) if inj else (first,) + tuple(more)
             S._enter(name, part, fid, inj, args)
             if rz == 1:
                 raise RuntimeError("scripted failure")
             if rz == 2:
                 raise KeyError("scripted failure")
             return fid
-        if not asy:
-            if par == 0:
-                def h(params, *rest): return body(params, rest)
-            elif par == 1:
-                def h(ls, *rest): return body(ls, rest)
-            elif par == 2:
-                def h(srv: LS, *rest): return body(srv, rest)
-            elif par == 3:
-                def h(x: int, *rest): return body(x, rest)
-            else:
-                def h(ls: int, *rest): return body(ls, rest)
-        else:
-            if par == 0:
-                async def h(params, *rest): return body(params, rest)
-            elif par == 1:
-                async def h(ls, *rest): return body(ls, rest)
-            elif par == 2:
-                async def h(srv: LS, *rest): return body(srv, rest)
-            elif par == 3:
-                async def h(x: int, *rest): return body(x, rest)
-            else:
-                async def h(ls: int, *rest): return body(ls, rest)
-        return h
+        return build_callable(body, type(self.server), asy, par, rest, ck)
 
     def _wrap_builtin(self, name, orig):
         S = self
@@ -469,8 +509,9 @@ def enc_ev(e):
 
 def enc_cfg(case):
     toks = [len(case["regs"])]
-    for kind, name, asy, par, thr, fid, rz in case["regs"]:
-        toks += [kind] + enc_str(name) + [asy] + PARAMS[par][0].split() + [thr, fid]
+    for r in case["regs"]:
+        kind, name, asy, par, thr, fid, rz, rest, ck = reg_fields(r)
+        toks += [kind] + enc_str(name) + [asy] + first_tokens(par, ck).split() + [int(hints_ok(rest, ck)), thr, fid]
     rs = [r[5] for r in case["regs"] if r[6]]
     toks += [len(rs)] + rs
     tk = case.get("tokens", [])
@@ -559,9 +600,10 @@ def parse_run(toks, case):
         x["reply"] = None if r == 0 else c.oframe() if r == 1 else "silent"
         msgs.append(x)
     guard = bool(c.int())
+    inj_ok = bool(c.int())
     c.word("|")
     actual = [c.list(c.xinv) for _ in msgs]
-    return M, {"msgs": msgs}, guard, actual
+    return M, {"msgs": msgs, "inj_ok": inj_ok}, guard, actual
 
 
 W0 = [False, [], [], 0, False, []]
@@ -575,6 +617,8 @@ def judge(case, impl, S):
     if impl.get("anomalies") or impl.get("dead"):
         return "anomaly"
     msgs = S["msgs"]
+    rids = [e[1]["id"] for e in case["evs"] if e[0] == "recv" and e[1].get("id") is not None]
+    distinct = len(set(rids)) == len(rids)      # a reused request id: replies cannot be attributed by id
     k = -1
     recv_at = {}
     per = {}
@@ -587,10 +631,11 @@ def judge(case, impl, S):
                 return "a message received after shutdown invoked or answered something"
             if x["reply"] is None:
                 rid = e[1].get("id")
-                if any(f[1] == rid for f in o["out"]) and rid is not None:
+                if distinct and any(f[1] == rid for f in o["out"]) and rid is not None:
                     return "unexpected reply"
             elif x["reply"] != "silent":
-                if [f for f in o["out"] if f[1] == x["reply"][1]] != [x["reply"]]:
+                mine = [f for f in o["out"] if f[1] == x["reply"][1]]
+                if (mine != [x["reply"]]) if distinct else (x["reply"] not in mine):
                     return "the delivery did not write exactly the built-in's / method-not-found reply"
         for h in o["log"]:
             m = h[0]
@@ -707,6 +752,67 @@ def shape_cases():
     return out
 
 
+def sig_shape_cases():
+    """The generalised shape product: first parameter {unannotated other name, `ls`, other name annotated
+    exactly with the server's class, other name with another annotation, `ls` with another annotation} x
+    the rest of the signature {nothing more, a further parameter with a resolvable annotation, a further
+    parameter with an UNRESOLVABLE annotation, an unresolvable return annotation} x callable {def,
+    async def, functools.partial of a def, instance with __call__, lambda} x {feature, command} x
+    {no thread, thread above, thread below}; each shape is reached by one message (the way rotates:
+    notification, request, chained after a built-in; commands through executeCommand)."""
+    out = []
+    n = 0
+    sigs = []
+    for ck in (K_DEF, K_PARTIAL, K_OBJ):
+        for asy in ((0, 1) if ck == K_DEF else (0,)):
+            for par in range(5):
+                for rest in range(4):
+                    sigs.append((asy, par, rest, ck))
+    sigs += [(0, 0, 0, K_LAMBDA), (0, 1, 0, K_LAMBDA)]
+    for asy, par, rest, ck in sigs:
+        for kind in (0, 1):
+            for thr in (T_NONE, T_ABOVE, T_BELOW):
+                if rest == 0 and ck == K_DEF:
+                    continue                      # shape_cases() has these, with every way of reaching them
+                n += 1
+                rz = (n // 3) % 2 if n % 7 == 0 else 0
+                ids = [0]
+                evs = [["recv", mk_msg("init", ids)]]
+                if kind == 1:
+                    name = "cmd.a"
+                    evs.append(["recv", mk_msg("exec", ids, cmd="cmd.a")])
+                    regs = [[kind, name, asy, par, thr, 1, rz, rest, ck]]
+                else:
+                    via = ["other-n", "other-r", "open", "trace", "exec"][n % 5]
+                    name = "u/a" if via.startswith("other") else BUILTIN[via]
+                    regs = [[kind, name, asy, par, thr, 1, rz, rest, ck]]
+                    if via == "other-n":
+                        evs.append(["recv", mk_msg("other", ids, name="u/a", id=None)])
+                    elif via == "other-r":
+                        evs.append(["recv", mk_msg("other", ids, name="u/a", id=7)])
+                    else:
+                        if via == "exec":
+                            regs.append([1, "cmd.a", 0, 0, T_NONE, 2, 0])
+                        evs.append(["recv", mk_msg(via, ids, **({"cmd": "cmd.a"} if via == "exec" else {}))])
+                out.append({"t": "sigshape", "regs": regs, "tokens": [1, 2], "evs": evs + DRAIN[:4]})
+    return out
+
+
+def sig_table():
+    """(par | None, rest, ck): every first parameter incl. none at all x rest x every kind of callable
+    incl. bound methods (which the decorators cannot register: setattr fails) - for the function-level
+    comparison of has_ls_param_or_annotation with Model.Dispatch.has_ls_g."""
+    rows = []
+    for ck in (K_DEF, K_PARTIAL, K_OBJ, K_LAMBDA, K_METHOD):
+        for par in [None, 0, 1, 2, 3, 4]:
+            for rest in ((0,) if ck == K_LAMBDA else range(4)):
+                if ck == K_LAMBDA and par in (2, 3, 4):
+                    continue
+                for asy in ((0, 1) if ck in (K_DEF, K_METHOD) else (0,)):
+                    rows.append((par, rest, ck, asy))
+    return rows
+
+
 def matrix_cases():
     """Every built-in method x user handler kind {none, sync, async, thread} x outcome {ok, raise,
     KeyError}, after initialize and (workspace methods) before it; a second message arrives before
@@ -757,7 +863,13 @@ def scenario(rng):
             kind = 1 - kind
         asy = int(rng.random() < 0.35)
         thr = rng.choice([T_NONE, T_NONE, T_ABOVE, T_BELOW]) if (not asy or rng.random() < 0.1) else T_NONE
-        regs.append([kind, name, asy, rng.randrange(5), thr, len(regs) + 1, rng.choice([0, 0, 0, 1, 2])])
+        row = [kind, name, asy, rng.randrange(5), thr, len(regs) + 1, rng.choice([0, 0, 0, 1, 2])]
+        if rng.random() < 0.35:                 # the rest of the signature / another kind of callable
+            ck = rng.choice([K_DEF, K_DEF, K_PARTIAL, K_OBJ, K_LAMBDA]) if not asy else K_DEF
+            if ck == K_LAMBDA:
+                row[3] = rng.choice([0, 1])
+            row += [0 if ck == K_LAMBDA else rng.randrange(4), ck]
+        regs.append(row)
     ids = [0]
     msgs = []
     wild = rng.random() < 0.25            # protocol-violating clients: built-ins that raise
@@ -957,7 +1069,9 @@ class C14(core.Property):
                    "step_tot", "balance", "M_run", "O_run", "K_run", "at_most_once", "exactly_once_at_quiescence",
                    "builtin_then_user_once", "entries_are_owed", "entries_from_registry", "snapshots",
                    "user_failure_keeps_builtin", "builtin_reply_kept", "no_handler_nothing", "recv_gated",
-                   "literal_inside_guard", "delivery_exact", "shapes_in_context", "C14_shapes", "C14_partial", "C14_refuted_builtin_raises", "C14_refuted",
+                   "literal_inside_guard", "delivery_exact", "shapes_in_context", "see_faithful", "inject_decision",
+                   "inject_iff_asked_g", "inject_only_if_asked_g", "inject_refuted_unresolvable_hints",
+                   "shapes_in_context_g", "C14_refuted_unresolvable_hints", "C14_shapes", "C14_partial", "C14_refuted_builtin_raises", "C14_refuted",
                    "C14_nonvacuous", "C14_reference_agrees"]
     coq_targets = ["Props/C14.vo", "Extract/ExtractC14.vo"]
     rule = ("non-trivial = the registration shape has a thread decorator or a server parameter, or the message's "
@@ -970,6 +1084,8 @@ class C14(core.Property):
                     "dict order, inspect.signature / get_type_hints (abstract signature), lsprotocol structuring "
                     "(messages are well-formed), the workspace transformers of the built-ins (C04 / C10)"]
     assumptions = ["messages are well-formed LSP messages for their method (structuring succeeds: C06, C13)",
+                   "the reply clauses of the reference attribute replies by request id: exact for pairwise distinct "
+                   "ids, containment when a client reuses an id (the model itself handles reuse: impl = M)",
                    "handler coroutines have no suspension point; user handlers do not touch the workspace",
                    "a pool work item starts and finishes as two atomic events"]
 
@@ -982,6 +1098,7 @@ class C14(core.Property):
                     cases.extend(json.load(open(os.path.join(cdir, f))))
         cases.append(SANITY)
         cases.extend(shape_cases())
+        cases.extend(sig_shape_cases())
         cases.extend(matrix_cases())
         n = chk.n(260, 6000)
         cases.extend(interleave(chk.rng, [scenario(chk.rng) for _ in range(n)]))
@@ -1014,7 +1131,8 @@ class C14(core.Property):
         M, S, guard, actual = parse_run(toks, case)
         if not guard:
             self._unguarded.add(core.canon(case))
-        return {"M": M, "S": S, "guard": guard, "klass": None if guard else KLASS}
+        return {"M": M, "S": S, "guard": guard,
+                "klass": None if guard else (KLASS if S["inj_ok"] else KLASS_SIG)}
 
     _unguarded = set()
     _outside = []
@@ -1033,7 +1151,7 @@ class C14(core.Property):
 
     def nontrivial(self, case):
         regs = case["regs"]
-        if any(r[4] != T_NONE or r[3] in INJECTS for r in regs):
+        if any(r[4] != T_NONE or r[3] in INJECTS or len(r) > 7 for r in regs):
             return True
         feats = {r[1] for r in regs if r[0] == 0}
         return any(e[0] == "recv" and e[1]["c"] != "other" and meth_of(e[1]) in feats for e in case["evs"])
@@ -1050,12 +1168,14 @@ class C14(core.Property):
             yield dict(case, regs=regs[:a] + regs[a + 1:])
         for a, r in enumerate(regs):
             if r[6]:
-                yield dict(case, regs=regs[:a] + [r[:6] + [0]] + regs[a + 1:])
+                yield dict(case, regs=regs[:a] + [r[:6] + [0] + r[7:]] + regs[a + 1:])
+            if len(r) > 7 and (r[7] or r[8]):
+                yield dict(case, regs=regs[:a] + [r[:7]] + regs[a + 1:])
 
     def search(self, chk):
         """The tie or a proof broke: look for an input on which the property itself fails (judged by
         the reference S alone, inside the guard)."""
-        cases = shape_cases() + matrix_cases() + interleave(chk.rng, [scenario(chk.rng) for _ in range(300)])
+        cases = shape_cases() + sig_shape_cases() + matrix_cases() + interleave(chk.rng, [scenario(chk.rng) for _ in range(300)])
         out = []
         for r in core.evaluate(self, chk, cases):
             if r["guard"] and r["S"] is not None and not self.satisfies(r["case"], r["impl"], r["S"]):
@@ -1077,6 +1197,8 @@ class C14(core.Property):
                 k = "async" if r[2] else ("thread" if r[4] != T_NONE else "sync")
                 add("reg/%s/%s/%s/%s" % ("feature" if r[0] == 0 else "command", k, PARAMS[r[3]][1],
                                          ["ok", "raise", "keyerror"][r[6]]))
+                rr = reg_fields(r)
+                add("sig/%s/rest=%d/hints=%s" % (CKIND[rr[8]], rr[7], hints_ok(rr[7], rr[8])))
                 if r[0] == 0:
                     feats.setdefault(r[1], k + "/" + ["ok", "raise", "keyerror"][r[6]])
             for e in c["evs"]:
@@ -1086,6 +1208,40 @@ class C14(core.Property):
                     m = e[1]
                     add("msg/%s/user=%s" % (m["c"], feats.get(meth_of(m), "none")))
         return d
+
+    def _sig_table_check(self):
+        import typing
+        from pygls.lsp.server import LanguageServer
+        try:
+            from pygls.feature_manager import has_ls_param_or_annotation as decide
+        except ImportError:                     # renamed: the registration-level cases still cover it
+            self.extra_coverage = dict(getattr(self, "extra_coverage", None) or {}, signature_table="skipped")
+            return []
+
+        class Srv(LanguageServer):
+            pass
+        LS = Srv
+        rows = sig_table()
+        outs = core.run_driver("C14", ["sig %s %d" % (first_tokens(par, ck), int(hints_ok(rest, ck)))
+                                       for par, rest, ck, asy in rows])
+        bad = []
+        for (par, rest, ck, asy), o in zip(rows, outs):
+            f = build_callable(lambda first, more: None, LS, asy, par, rest, ck)
+            try:
+                typing.get_type_hints(f)
+                h = True
+            except Exception:       # noqa
+                h = False
+            got = bool(decide(f, LS))
+            model, via_features, asks, ok = [bool(int(x)) for x in o[:4]]
+            if h != hints_ok(rest, ck) or got != model or model != via_features or (ok and got != asks):
+                bad.append({"case": {"first": None if par is None else PARAMS[par][1], "rest": REST[rest],
+                                     "callable": CKIND[ck], "async": asy},
+                            "impl": {"injects": got, "get_type_hints_ok": h},
+                            "S": {"model": model, "asks": asks, "inside_sig_ok": ok, "hints_ok_table": hints_ok(rest, ck)},
+                            "verdict": "violation"})
+        self.extra_coverage = dict(getattr(self, "extra_coverage", None) or {}, signature_table=len(rows))
+        return bad[:3]
 
     def extra_checks(self, chk):
         """The shape product once more through C19's own machinery (c19.run_shape: the real decorators,
@@ -1100,6 +1256,10 @@ class C14(core.Property):
         if flat != SANITY_LOG or outs != SANITY_OUT or not g or not Ms["quiescent"]:
             viol.append({"case": SANITY, "impl": flat, "S": SANITY_LOG, "verdict": "violation",
                          "suffix": "no-failing-input-found"})
+        # every signature, at the level of the decision function: the real has_ls_param_or_annotation on
+        # real callables against Model.Dispatch.has_ls_g (and the hand-written CPython facts `hints_ok`
+        # against typing.get_type_hints itself)
+        viol += self._sig_table_check()
         # the real runtime: ordinary loop, C tasks, the server's own ThreadPoolExecutor
         rcases = []
         for _ in range(chk.n(60, 600)):
